@@ -197,3 +197,53 @@ def read_string_literal(text, dialect="luau", interpolated=False):
         else:
             raise LiteralError("unknown escape \\%s" % e)
     return bytes(out)
+
+
+# ---- number literals (independent reader used by C13) -------------------------------------------------------------
+_DEC = re.compile(r"(?:\d+\.?\d*|\.\d+)(?:[eE][+-]?\d+)?$") if "re" in globals() else None
+
+
+def read_number_text(text):
+    """The double denoted by the text darklua writes for a number: a Luau / Lua number literal, optionally preceded by a unary
+    minus, or one of the three constant expressions `(0/0)`, `(1/0)`, `(-1/0)`.  Raises LiteralError for anything else.
+
+    decimal: digits [. digits] [e|E [+-] digits]  (underscores allowed by Luau between characters, dropped before conversion;
+    correctly rounded conversion as strtod / Luau do);  hexadecimal: 0x / 0X hex digits, value taken as an unsigned integer and
+    converted to a double; a binary exponent `p`/`P` (C99 strtod, accepted by PUC-Lua builds, NOT by Luau) scales it by 2^n;
+    binary: 0b / 0B digits (Luau)."""
+    import re as _re
+    import math
+    t = text.strip()
+    if t == "(0/0)":
+        return math.nan
+    if t == "(1/0)":
+        return math.inf
+    if t == "(-1/0)":
+        return -math.inf
+    neg = False
+    if t.startswith("-"):
+        neg, t = True, t[1:].lstrip()
+    if not t or not (t[0].isdigit() or (t[0] == "." and len(t) > 1 and t[1].isdigit())):
+        raise LiteralError("not a number literal: %r" % text)
+    if "_" in t and (t.startswith("_") or "._" in t[:2]):
+        raise LiteralError("underscore not allowed here: %r" % text)
+    s = t.replace("_", "")
+    if s[:2] in ("0x", "0X"):
+        m = _re.fullmatch(r"([0-9a-fA-F]+)(?:[pP]([+-]?\d+))?", s[2:])
+        if not m:
+            raise LiteralError("malformed hexadecimal literal: %r" % text)
+        v = float(int(m.group(1), 16))
+        if m.group(2) is not None:
+            v = math.ldexp(v, int(m.group(2)))
+    elif s[:2] in ("0b", "0B"):
+        if not _re.fullmatch(r"[01]+", s[2:]):
+            raise LiteralError("malformed binary literal: %r" % text)
+        v = float(int(s[2:], 2))
+    else:
+        if not _re.fullmatch(r"(?:\d+\.?\d*|\.\d+)(?:[eE][+-]?\d+)?", s):
+            raise LiteralError("malformed decimal literal: %r" % text)
+        try:
+            v = float(s)
+        except OverflowError:
+            v = math.inf
+    return -v if neg else v
